@@ -11,7 +11,7 @@ Local Open Scope Z_scope.
 Definition RMAX : Z := 1073741824.             (* 2^30 *)
 Definition DMAX : Z := 1099511627776.          (* 2^40 >= 1000 * 2^30 + 1 *)
 Definition WMAX : Z := 4294967296.             (* 2^32 *)
-Definition SPMAX : Z := 4722367256925831169.   (* 2^40 * 4294968 + 1  (< 2^63 - 2^30) *)
+Definition SPMAX : Z := 4722368356437458944.   (* 2^40 * 4294969  (< 2^63 - 2^30) *)
 Definition BMAX : Z := 4611686018427387904.    (* 2^62: budgets *)
 
 (* What the integer-level development needs to know about the float64
@@ -283,7 +283,8 @@ Section Int.
   Lemma total_req_filter : forall ins, sumZ (map req_val (filter has_req ins)) = total_req ins.
   Proof.
     unfold total_req, sumZ. induction ins as [|i ins IH]; cbn; [reflexivity|].
-    unfold has_req at 1. unfold req_val at 2. destruct (in_req i); cbn; [unfold req_val at 1|]; lia.
+    destruct (has_req i) eqn:E; cbn; [lia|].
+    unfold has_req in E. unfold req_val at 2. destruct (in_req i); [discriminate|]. lia.
   Qed.
 
   Definition tx_ok (ins : list inp) (floor budget : Z) (t : stx) : Prop :=
